@@ -148,6 +148,23 @@ class Relay:
         self.close_all()
         self.ls.close()
 
+    def abort(self, idx):
+        """the peer aborts connection `idx`: TCP RST to the client (SO_LINGER 0 + close)"""
+        with self.lock:
+            rec = self.conns[idx]
+        rec["aborted"] = True
+        cs = rec["socks"][0]
+        try:
+            cs.setsockopt(socket.SOL_SOCKET, socket.SO_LINGER, struct.pack("ii", 1, 0))
+            cs.shutdown(socket.SHUT_RD)      # wake the pump blocked in recv() (nothing goes on the wire); while a
+            for _ in range(200):             # thread sits in recv() the kernel would keep the socket alive past close()
+                if rec.get("c2s_done"):
+                    break
+                time.sleep(0.002)
+            cs.close()                       # last reference, linger 0: RST
+        except OSError:
+            pass
+
     def max_stall(self):
         """the longest the relay + simulator let a client wait for a block (seconds): a scenario is only valid when
         this stays well below the client's timeout, else 'silence' happened where none was scripted"""
@@ -249,6 +266,7 @@ class Relay:
             except OSError:
                 d = b""
             if not d:
+                rec["c2s_done"] = True
                 if not stopped:
                     self._shut(dst)
                 return
